@@ -108,8 +108,9 @@ type Case struct {
 	// Replay is true when re-running a case from a replay file.
 	Replay bool
 
-	scratch string
-	dirs    []string
+	scratch  string
+	dirs     []string
+	keepDirs bool
 
 	mu           sync.Mutex
 	counts       map[string]int64
@@ -232,7 +233,19 @@ func (c *Case) Inconclusive(why string) {
 	c.mu.Unlock()
 }
 
+// KeepDirs makes the case leave its scratch directories in place (the parent
+// removes the whole scratch tree at the end). Used when engine goroutines may
+// still be running when the case returns.
+func (c *Case) KeepDirs() {
+	c.mu.Lock()
+	c.keepDirs = true
+	c.mu.Unlock()
+}
+
 func (c *Case) cleanup() {
+	if c.keepDirs {
+		return
+	}
 	for _, d := range c.dirs {
 		_ = os.RemoveAll(d)
 	}
